@@ -448,6 +448,12 @@ fn candidates(sc: &Scenario) -> Vec<Scenario> {
         c.schedule = None;
         out.push(c);
     }
+    if sc.engine_seams {
+        let mut c = sc.clone();
+        c.engine_seams = false;
+        c.schedule = None;
+        out.push(c);
+    }
     if sc.pct.is_some() {
         let mut c = sc.clone();
         c.pct = None;
